@@ -5,6 +5,7 @@ package collseq
 
 import (
 	"fmt"
+	"os"
 	"reflect"
 	"sort"
 	"strings"
@@ -161,6 +162,7 @@ func buildSys(cf config, ops, obs []coll.Op) *seqx.Sys {
 			return ""
 		},
 		MaxDepth: cf.depth,
+		ModelKey: func(model interface{}) string { return model.(*coll.Dict).Key() },
 	}
 }
 
@@ -245,6 +247,9 @@ func Run(c *evid.Ctx, families map[string]bool) {
 	allFix := true
 	unj := map[string]bool{}
 	for _, cf := range cfs {
+		if only := os.Getenv("VERIF_ONLY_TYPE"); only != "" && cf.desc.Name != only {
+			continue
+		}
 		ops, obs, unjudged := alphabet(cf.desc, cf.nk, cf.nv)
 		for _, u := range unjudged {
 			unj[cf.desc.Name+"."+u] = true
